@@ -3,7 +3,11 @@
 // Package vsync is the subset of package sync on top of the virtual scheduler.
 package vsync
 
-import "github.com/biscuit-auth/biscuit-go/v2/vsched"
+import (
+	"sync"
+
+	"github.com/biscuit-auth/biscuit-go/v2/vsched"
+)
 
 type Mutex = vsched.Mutex
 type RWMutex = vsched.RWMutex
@@ -13,3 +17,9 @@ type Locker interface {
 	Lock()
 	Unlock()
 }
+
+// Map and Pool never block a caller for longer than an internal critical section, and under
+// the cooperative scheduler only one logical thread runs at a time: the real types are used as
+// they are (their operations are not scheduling points).
+type Map = sync.Map
+type Pool = sync.Pool
